@@ -15,6 +15,7 @@
 package dmap
 
 import (
+	"bytes"
 	"context"
 	"errors"
 	"fmt"
@@ -331,6 +332,10 @@ func (dm *DMap) putOnCluster(e *env) error {
 		if isKeyExpired(current.TTL()) {
 			return ErrKeyNotFound
 		}
+		if e.putConfig.onlyIfValue != nil && !bytes.Equal(current.Value(), e.putConfig.onlyIfValue) {
+			// Lease: the lock has another holder now.
+			return ErrNoSuchLock
+		}
 		e.value = current.Value()
 	}
 
@@ -415,6 +420,10 @@ type PutConfig struct {
 	HasNX         bool
 	HasXX         bool
 	OnlyUpdateTTL bool
+
+	// onlyIfValue makes an OnlyUpdateTTL call conditional: the expiry changes only
+	// if the key still holds this value when the fragment lock is held.
+	onlyIfValue []byte
 }
 
 // Put sets the value for the given key. It overwrites any previous value
